@@ -42,7 +42,7 @@ class PredLoc:
 
 
 class St:
-    __slots__ = ('heaps', 'alloc', 'pc', 'ex', 'gen', 'psums', 'recent_idx', 'iters')
+    __slots__ = ('heaps', 'alloc', 'pc', 'ex', 'gen', 'psums', 'recent_idx', 'iters', 'last_print')
 
     def __init__(self, ex):
         self.ex = ex
@@ -53,6 +53,7 @@ class St:
         self.psums = {}
         self.recent_idx = ()
         self.iters = {}
+        self.last_print = None
 
     def fork(self):
         s = St(self.ex)
@@ -63,6 +64,7 @@ class St:
         s.psums = {k: list(v) for k, v in self.psums.items()}
         s.recent_idx = self.recent_idx
         s.iters = dict(self.iters)
+        s.last_print = self.last_print
         return s
 
     def assume(self, t):
@@ -848,6 +850,7 @@ class Executor:
         na = self.m.fresh('alloc_l%d' % L['ord'], self.m.Int)
         st.assume(na >= st.alloc)
         st.alloc = na
+        st.last_print = None   # what earlier iterations printed last is not tracked
         self.flush_ref_axioms(st)
         frame = frame.copy()
         self._cur_frame = frame
